@@ -36,6 +36,7 @@ var (
 	fSeed    = flag.Int64("seed", 0, "seed (rotates shard assignment only)")
 	fDead    = flag.Int64("deadline", 0, "unix seconds at which exploration stops")
 	fRoot    = flag.String("root", "/verif", "verif root")
+	fOutDir  = flag.String("outdir", "", "directory for evidence/ and replays/ (default: the verif root)")
 	fInstrOK = flag.Bool("instr-ok", true, "instrumented build available")
 	fRace    = flag.Bool("racepass", false, "run the free-running race-detector pass of C18 (race-enabled build)")
 )
@@ -81,6 +82,32 @@ func worker() {
 type known struct {
 	prop, key, text string
 	seen            bool
+}
+
+// procCPU returns the CPU time (user+system, seconds) consumed so far by a process, from /proc.
+func procCPU(pid int) float64 {
+	b, err := os.ReadFile(fmt.Sprintf("/proc/%d/stat", pid))
+	if err != nil {
+		return 0
+	}
+	// fields after the parenthesised command name; utime and stime are fields 14 and 15
+	s := string(b)
+	if k := strings.LastIndexByte(s, ')'); k >= 0 {
+		f := strings.Fields(s[k+1:])
+		if len(f) > 13 {
+			u, _ := strconv.ParseFloat(f[11], 64)
+			st, _ := strconv.ParseFloat(f[12], 64)
+			return (u + st) / 100 // USER_HZ is 100 on Linux
+		}
+	}
+	return 0
+}
+
+func outRoot() string {
+	if *fOutDir != "" {
+		return *fOutDir
+	}
+	return *fRoot
 }
 
 func loadKnown(root string) []*known {
@@ -174,6 +201,7 @@ func drive() int {
 		err  error
 		mark string
 		log  string
+		slow bool // stopped long after the deadline without being hung: no verdict
 	}
 	out := make([]wres, n)
 	var wg sync.WaitGroup
@@ -196,15 +224,45 @@ func drive() int {
 				return
 			}
 			go func() { done <- cmd.Wait() }()
-			grace := time.Until(deadline) + 120*time.Second
-			var werr error
-			select {
-			case werr = <-done:
-			case <-time.After(grace):
-				_ = cmd.Process.Kill()
-				<-done
-				werr = fmt.Errorf("worker exceeded deadline+120s and was stopped")
+			// Workers stop by themselves at the deadline, between two cases. No verdict depends on
+			// wall-clock time: a worker is declared hung only if its progress counter stands still
+			// while it consumes hangCPU seconds of CPU time (one case that does not end). A worker that
+			// is merely slow (loaded machine) is stopped hardStop after the deadline without a verdict:
+			// its remaining cases count as not explored.
+			hangCPU := 600.0
+			if v, err := strconv.ParseFloat(os.Getenv("VERIF_HANG_CPU_S"), 64); err == nil && v > 0 {
+				hangCPU = v // testing aid
 			}
+			hardStop := deadline.Add(900 * time.Second)
+			var werr error
+			lastBeat, _ := bx.ReadBeat(markf)
+			cpuAtBeat := procCPU(cmd.Process.Pid)
+			tick := time.NewTicker(2 * time.Second)
+		wait:
+			for {
+				select {
+				case werr = <-done:
+					break wait
+				case <-tick.C:
+					b, _ := bx.ReadBeat(markf)
+					cpu := procCPU(cmd.Process.Pid)
+					if b != lastBeat {
+						lastBeat, cpuAtBeat = b, cpu
+					} else if cpu-cpuAtBeat >= hangCPU {
+						_ = cmd.Process.Kill()
+						<-done
+						werr = fmt.Errorf("one case consumed more than %.0f s of CPU time without ending; worker stopped", hangCPU)
+						break wait
+					}
+					if time.Now().After(hardStop) {
+						_ = cmd.Process.Kill()
+						<-done
+						out[i].slow = true
+						break wait
+					}
+				}
+			}
+			tick.Stop()
 			lg.Close()
 			lb, _ := os.ReadFile(lg.Name())
 			if len(lb) > 3000 {
@@ -237,6 +295,11 @@ func drive() int {
 	var cover []byte
 	harnessErr := ""
 	for i := range out {
+		if out[i].slow {
+			tot.Exhaustive = false
+			tot.Notes = append(tot.Notes, fmt.Sprintf("shard %d was still making progress 900 s after the deadline and was stopped; its remaining cases were not explored (no verdict)", i))
+			continue
+		}
 		if out[i].err != nil {
 			entry, input, ok := bx.ReadMark(out[i].mark)
 			tot.Exhaustive = false
@@ -246,7 +309,7 @@ func drive() int {
 			{
 				key := *fProp + "/worker-death/" + entry
 				fm[key] = &bx.Finding{Key: key, Count: 1,
-					What: fmt.Sprintf("worker process died (%v) while executing %s on %d input octets (fatal runtime error: out of memory, stack overflow or throw)", out[i].err, entry, len(input)),
+					What: fmt.Sprintf("worker process stopped (%v) while executing %s on %d input octets (a call that does not end, or a fatal runtime error: out of memory, stack overflow, throw)", out[i].err, entry, len(input)),
 					Replay: bx.Replay{Property: *fProp, Key: key, Entry: entry, InputHex: bx.Hex(input),
 						Expected: "call returns a value or an error", Observed: "process died: " + out[i].err.Error() + "\n" + out[i].log}}
 				tot.Notes = append(tot.Notes, fmt.Sprintf("shard %d died; the rest of its cases were not explored", i))
@@ -327,7 +390,7 @@ func drive() int {
 			viol = append(viol, f)
 		}
 	}
-	rdir := filepath.Join(*fRoot, "replays", *fProp)
+	rdir := filepath.Join(outRoot(), "replays", *fProp)
 	_ = os.RemoveAll(rdir) // replay files describe the latest run only
 	for _, f := range viol {
 		_ = os.MkdirAll(rdir, 0o755)
@@ -381,8 +444,8 @@ func drive() int {
 		"violations":  len(viol),
 	}
 	eb, _ := json.MarshalIndent(ev, "", " ")
-	_ = os.MkdirAll(filepath.Join(*fRoot, "evidence"), 0o755)
-	if err := os.WriteFile(filepath.Join(*fRoot, "evidence", *fProp+".json"), eb, 0o644); err != nil {
+	_ = os.MkdirAll(filepath.Join(outRoot(), "evidence"), 0o755)
+	if err := os.WriteFile(filepath.Join(outRoot(), "evidence", *fProp+".json"), eb, 0o644); err != nil {
 		fmt.Println("HARNESS-ERROR cannot write evidence:", err)
 		return 3
 	}
